@@ -417,7 +417,9 @@ fn at_end(sc: &Sc, main_finished: bool, default_schedule: bool) {
 			// (timed clause: only on the default schedule, where time advances at quiescent
 			// instants only — under a PREEMPT deviation a --delay-run sleep may start late)
 			let quiescents: Vec<usize> = f.log.iter().enumerate().filter(|(_, r)| matches!(r.ev, Ev::User { tag: "quiescent" | "drain", .. })).map(|(i, _)| i).collect();
-			for c in f.changes.iter().filter(|_| default_schedule) {
+			// and without --delay-run: every action queues its delay in front of the signals
+			// decided by earlier actions, so no fixed deadline exists for them
+			for c in f.changes.iter().filter(|_| default_schedule && !sc.delay_run) {
 				let Some(child) = running_at(&f.log, *c) else { continue };
 				// the action that handled this change, and the first quiescent instant by which
 				// its query of the job (after the optional --delay-run) has certainly run
